@@ -67,7 +67,9 @@ def make_oracle(tier, with_defs=False):
     return oracle
 
 
-CODE_LINES = ["x", "", "  ", "```", "````", "~~~", " ```", "   ````", "> x", "- x", "    x", "\tx", "x  ", "{% t %}", '"q"...', "# h", "`", "<!--"]
+CODE_LINES = ["x", "", "  ", "```", "````", "~~~", " ```", "   ````", "> x", "- x", "    x", "\tx", "x  ", "{% t %}", '"q"...', "# h", "`", "<!--",
+              # appended later: fence runs indented by 4-6 columns (not closers as written; closers once 1-3 columns of indent are removed)
+              "    ```", "      ```", "     ~~~"]
 INFOS = ["", "py", "py x=1", "~x", "{.a}"]
 
 
